@@ -453,3 +453,12 @@ def sd_pair(draw, *, n=2, max_vars=4, min_vars=1, input_types=ALL_INPUTS, nonneg
     for s in specs:
         s["_domains"] = {str(k): list(v) for k, v in domains.items()}
     return specs
+
+
+def unlearn(draw, spec, p=6):
+    """Mark a drawn subset of the tensors of a circuit spec as non-learnable (frozen parameters)."""
+    for L in spec["layers"]:
+        for k, v in L.items():
+            if isinstance(v, dict) and "k" in v and v["k"] != "constv" and draw(st.integers(0, p - 1)) == 0:
+                v["learn"] = False
+    return spec
